@@ -34,6 +34,7 @@ def run(repo, rep):
 
     rep.run_borrowed(c08, {"C08-e": "C02-f"}, repo)
     rule_weight_buffers(repo, rep)
+    rule_round5(repo, rep)
     rep.run_borrowed(c03, {"C03-e": "C02-g"}, repo)
     rep.clause("C02-h", "the memory mode and arena cache size that bound the regions are the ones the selected configuration section defines (a section's own key overrides what it inherits) [rule shared with C18-b]")
     from . import c18
@@ -84,7 +85,20 @@ def run(repo, rep):
             detail += f" with {str(norm(src))[:80]}"
     rep.check(ok, "C02-k", "ethosu/vela/graph_optimiser_util.py:_avoid_nhcwb16_for_memory_only", "a tensor produced or consumed by Op.Memcpy is excluded from NHCWB16", detail +
               ": Op.Memcpy is not recognised, both ends of the copy may get the brick format and the DMA length (from the source's rounded strides) exceeds the destination tensor")
+    if gens:
+        it_txt = str(norm(gens[0].generators[0].iter))
+        rep.check("tens.consumer_list" in it_txt and "tens.ops" in it_txt, "C02-k", "ethosu/vela/graph_optimiser_util.py:_avoid_nhcwb16_for_memory_only",
+                  "both the consumers and the producers of the tensor are searched for an Op.Memcpy", f"searches `{it_txt}` only: the output of an NPU memory copy (written as a linear byte copy) may be switched to the "
+                  "brick format, and its consumer then addresses linearly written bytes as bricks (never-written bytes for depths that are no multiple of 16)")
     cw = hn.func("create_weights")
+    # the address range of a stand-alone scale stream is built in the scale tensor's region, the others in the weight tensor's
+    for i_ in ast.walk(cw):
+        if isinstance(i_, ast.If) and str(norm(i_.test)) == "scale_tensor":
+            for branch, want in ((i_.body, "scale_region"), (i_.orelse, "shared_region")):
+                for c_ in [c2 for b in branch for c2 in ast.walk(b) if isinstance(c2, ast.Call) and call_name(c2) == "NpuAddressRange" and c2.args]:
+                    rep.check(str(norm(c_.args[0])) == want, "C02-k", "ethosu/vela/high_level_command_to_npu_op.py:create_weights",
+                              f"the scale range {'of a stand-alone scale tensor' if want == 'scale_region' else 'inside the weight stream'} is addressed in `{want}`",
+                              f"uses `{str(norm(c_.args[0]))}`: with DMA-buffered weights the scales are read from the SRAM region at the flash offset of the scale stream")
     sr = [s_ for s_ in ast.walk(cw) if isinstance(s_, ast.Assign) and norm(s_.targets[0]) == "scale_region"]
     rep.check(len(sr) == 1 and "get_region(scale_tensor.mem_type, arch)" in str(norm(sr[0].value)), "C02-k", "ethosu/vela/high_level_command_to_npu_op.py:create_weights",
               "scale_region = get_region(scale_tensor.mem_type, arch)", (str(norm(sr[0].value)) if sr else "") + ": SCALE_BASE stays an offset in the scale tensor's region while SCALE_REGION names another one")
@@ -444,3 +458,88 @@ def rule_weight_buffers(repo, rep):
         rep.check(ok, "C02-f", site, f"buffer {k} is also the only buffer of the single-buffer (Standard) case: it holds the largest depth slice of all (max_range_bytes)",
                   f"size is `{str(norm(size))}` = largest *even-indexed* slice: with one buffer the odd-indexed slices are copied into it as well (demonstrated: slices of 752 and 37040 bytes, "
                   "--arena-cache-size 37400 on ethos-u65-256: fast scratch published as 752 bytes, DMA and weight reads reach byte 37040)")
+
+
+def _mini_eval(e, env):
+    """Integer value of an arithmetic expression over env (names -> int) with the repo's rounding helpers given their documented
+    meaning; None if the expression uses anything else."""
+    if isinstance(e, ast.Constant) and isinstance(e.value, int) and not isinstance(e.value, bool):
+        return e.value
+    if isinstance(e, ast.Name):
+        return env.get(e.id)
+    if isinstance(e, ast.UnaryOp) and isinstance(e.op, ast.USub):
+        v = _mini_eval(e.operand, env)
+        return None if v is None else -v
+    if isinstance(e, ast.BinOp):
+        a, b = _mini_eval(e.left, env), _mini_eval(e.right, env)
+        if a is None or b is None:
+            return None
+        if isinstance(e.op, ast.Add):
+            return a + b
+        if isinstance(e.op, ast.Sub):
+            return a - b
+        if isinstance(e.op, ast.Mult):
+            return a * b
+        if isinstance(e.op, ast.FloorDiv):
+            return a // b if b else None
+        if isinstance(e.op, ast.Mod):
+            return a % b if b else None
+        return None
+    if isinstance(e, ast.Call) and not e.keywords:
+        cn = (call_name(e) or "").split(".")[-1]
+        args = [_mini_eval(a, env) for a in e.args]
+        if None in args:
+            return None
+        if cn == "round_up" and len(args) == 2 and args[1]:
+            return ((args[0] + args[1] - 1) // args[1]) * args[1]
+        if cn == "round_up_divide" and len(args) == 2 and args[1]:
+            return (args[0] + args[1] - 1) // args[1]
+        if cn in ("max", "min") and args:
+            return max(args) if cn == "max" else min(args)
+        if cn == "int" and len(args) == 1:
+            return args[0]
+    return None
+
+
+def rule_round5(repo, rep):
+    """(l) tile base addresses of the replication padding (half-pixel-centre resize) stay inside the feature map: the offset of the
+    bottom-left element is w0 * (h0 - 1) * 16 * ceil(channels / 16) * element size, evaluated as a function; when the command
+    generator exchanges the two operands of an elementwise operation it exchanges every per-operand record."""
+    import itertools
+
+    from . import c18
+
+    rep.clause("C02-l", "replication-padding tile addresses address elements of the feature map itself (bottom-left offset evaluated on a grid of w0, h0, channels, element size); the operand exchange of "
+               "create_npu_elementwise_op covers tensors, boxes and shapes; --arena-cache-size 0 is honoured [rule shared with C18-c]")
+    rep.run_borrowed(c18, {"C18-c": "C02-l"}, repo, only_sites=("_get_vela_config",))
+    hn = repo.mod("high_level_command_to_npu_op")
+    mt = hn.func("modify_tile_addresses_for_padding")
+    defs = {str(norm(s_.targets[0])): s_.value for s_ in ast.walk(mt) if isinstance(s_, ast.Assign) and len(s_.targets) == 1 and isinstance(s_.targets[0], ast.Name)}
+    if "bl_offset" not in defs or "tr_offset" not in defs:
+        raise AnalysisError("modify_tile_addresses_for_padding: tile offsets not found")
+    wrong = None
+    pts = 0
+    for w0, h0, ch, es in itertools.product((1, 2, 5), (1, 2, 7), (1, 8, 15, 16, 17, 32, 48), (1, 2)):
+        env = {"w0": w0, "h0": h0, "channels": ch, "elem_size": es}
+        bl = _mini_eval(defs["bl_offset"], env)
+        tr = _mini_eval(defs["tr_offset"], env)
+        if bl is None or tr is None:
+            raise AnalysisError(f"modify_tile_addresses_for_padding: offsets not evaluable ({str(norm(defs['bl_offset']))[:70]})")
+        pts += 1
+        want_bl = w0 * (h0 - 1) * 16 * ((ch + 15) // 16) * es
+        want_tr = (w0 - 1) * 16 * es
+        if (bl, tr) != (want_bl, want_tr) and wrong is None:
+            wrong = (env, bl, want_bl, tr, want_tr)
+    rep.check(wrong is None, "C02-l", "ethosu/vela/high_level_command_to_npu_op.py:modify_tile_addresses_for_padding", f"bottom-left / top-right element offsets of an NHCWB16 feature map ({pts} points)",
+              (f"at {wrong[0]}: bottom-left offset {wrong[1]} (expected {wrong[2]}), top-right {wrong[3]} (expected {wrong[4]}): the base addresses of tiles 2 / 3 point up to one feature map past the IFM "
+               "(read beyond the published region in the Dedicated_Sram modes)") if wrong else "")
+    ce = hn.func("create_npu_elementwise_op")
+    swaps = [b for i_ in ast.walk(ce) if isinstance(i_, ast.If) for b in [i_] if "ifm_ifm2_correct_order" in str(norm(i_.test)) and isinstance(i_.test, ast.UnaryOp)]
+    if len(swaps) != 1:
+        raise AnalysisError("create_npu_elementwise_op: operand exchange branch not found")
+    body_txt = {str(norm(s_)) for s_ in swaps[0].body}
+    need = {"cmd.ifm_tensor, cmd.ifm2_tensor = (cmd.ifm2_tensor, cmd.ifm_tensor)", "cmd.ifm_box, cmd.ifm2_box = (cmd.ifm2_box, cmd.ifm_box)", "ps.ifm_shapes[0], ps.ifm_shapes[1] = (ps.ifm_shapes[1], ps.ifm_shapes[0])"}
+    missing = sorted(x.split(" = ")[0] for x in need if x not in body_txt and x.replace("(", "").replace(")", "") not in {t.replace("(", "").replace(")", "") for t in body_txt})
+    rep.check(not missing, "C02-l", "ethosu/vela/high_level_command_to_npu_op.py:create_npu_elementwise_op", "the operand exchange swaps tensors, boxes and the pass's operand shapes together",
+              f"not exchanged: {missing}: the feature maps created afterwards take the other operand's shape, i.e. the big operand's strides on the small tensor (read beyond the tensor and, at the top of the arena, beyond the region)")
+    rep.floor("C02-l", 3)
